@@ -333,7 +333,110 @@ func Add(a, b *Term) *Term {
 	if b.Op == "int" && b.I.Sign() < 0 {
 		return app("-", s, a, IntB(new(big.Int).Neg(b.I)))
 	}
+	if s == SInt {
+		if t := linCancel(a, b, 1); t != nil {
+			return t
+		}
+	}
 	return app("+", s, a, b)
+}
+
+// linCancel returns the canonical linear form of a + sign*b when that form is
+// smaller than the plain term (atoms cancel or constants fold), else nil.
+func linCancel(a, b *Term, sign int64) *Term {
+	type atom struct {
+		t    *Term
+		coef *big.Int
+	}
+	var atoms []*atom
+	idx := map[string]*atom{}
+	konst := new(big.Int)
+	leaves, consts := 0, 0
+	var walk func(t *Term, c *big.Int) bool
+	walk = func(t *Term, c *big.Int) bool {
+		switch {
+		case t.Op == "int":
+			consts++
+			konst.Add(konst, new(big.Int).Mul(c, t.I))
+		case t.Op == "+" && t.S == SInt:
+			for _, x := range t.Args {
+				if !walk(x, c) {
+					return false
+				}
+			}
+		case t.Op == "-" && t.S == SInt && len(t.Args) == 2:
+			if !walk(t.Args[0], c) || !walk(t.Args[1], new(big.Int).Neg(c)) {
+				return false
+			}
+		case t.Op == "-" && t.S == SInt && len(t.Args) == 1:
+			return walk(t.Args[0], new(big.Int).Neg(c))
+		case t.Op == "*" && len(t.Args) == 2 && t.Args[0].Op == "int":
+			return walk(t.Args[1], new(big.Int).Mul(c, t.Args[0].I))
+		case t.Op == "*" && len(t.Args) == 2 && t.Args[1].Op == "int":
+			return walk(t.Args[0], new(big.Int).Mul(c, t.Args[1].I))
+		default:
+			if t.S != SInt {
+				return false
+			}
+			leaves++
+			k := t.String()
+			if at := idx[k]; at != nil {
+				at.coef.Add(at.coef, c)
+			} else {
+				at = &atom{t, new(big.Int).Set(c)}
+				idx[k] = at
+				atoms = append(atoms, at)
+			}
+		}
+		return true
+	}
+	if !walk(a, big.NewInt(1)) || !walk(b, big.NewInt(sign)) {
+		return nil
+	}
+	live := 0
+	for _, at := range atoms {
+		if at.coef.Sign() != 0 {
+			live++
+		}
+	}
+	if live >= leaves && consts <= 1 {
+		return nil
+	}
+	var res *Term
+	term := func(at *atom, abs *big.Int) *Term {
+		if abs.Cmp(big.NewInt(1)) == 0 {
+			return at.t
+		}
+		return app("*", SInt, IntB(abs), at.t)
+	}
+	for _, at := range atoms {
+		if at.coef.Sign() > 0 {
+			if res == nil {
+				res = term(at, at.coef)
+			} else {
+				res = app("+", SInt, res, term(at, at.coef))
+			}
+		}
+	}
+	for _, at := range atoms {
+		if at.coef.Sign() < 0 {
+			abs := new(big.Int).Neg(at.coef)
+			if res == nil {
+				res = app("-", SInt, Int(0), term(at, abs))
+			} else {
+				res = app("-", SInt, res, term(at, abs))
+			}
+		}
+	}
+	switch {
+	case res == nil:
+		return IntB(konst)
+	case konst.Sign() > 0:
+		return app("+", SInt, res, IntB(konst))
+	case konst.Sign() < 0:
+		return app("-", SInt, res, IntB(new(big.Int).Neg(konst)))
+	}
+	return res
 }
 
 func Sub(a, b *Term) *Term {
@@ -346,6 +449,11 @@ func Sub(a, b *Term) *Term {
 	}
 	if termEq(a, b) && s == SInt {
 		return Int(0)
+	}
+	if s == SInt {
+		if t := linCancel(a, b, -1); t != nil {
+			return t
+		}
 	}
 	return app("-", s, a, b)
 }
